@@ -34,6 +34,26 @@ func (rolloutbgEngine) Gen(r *rand.Rand, idx int, tier string) any {
 			in.Status.Sub.Fin = "FinalisingStepRouteTrafficToNew"
 		}
 	}
+	// style switched after a completed canary release, then deleted or disabled before the next release starts
+	if idx%12 == 5 {
+		in.StaleCanary = true
+		in.Paused = false
+		st := &in.Status
+		st.Sub = &RSub{ObsWlGen: in.W.Gen, ObsRID: "v2", Hash: "current", Stable: "v1", PTH: "v2", CanaryRev: "v2", Idx: len(in.Steps), Next: -1, State: "Completed", Elapsed: true}
+		st.Prog, st.ProgStatus, st.ProgElapsed, st.Succ, st.Term = "Completed", false, true, "True", ""
+		in.W.InProgress = false
+		in.BR = nil
+		if chance(r, 60) {
+			in.Deleting, in.Disabled, in.Finalizer = true, false, true
+			st.Phase = pick(r, "Healthy", "Terminating")
+			if st.Phase == "Terminating" {
+				st.Term = "InTerminating"
+			}
+		} else {
+			in.Deleting, in.Disabled = false, true
+			st.Phase = pick(r, "Healthy", "Disabling", "Disabled")
+		}
+	}
 	return in
 }
 func knownFin(s string) bool {
@@ -45,6 +65,10 @@ func knownFin(s string) bool {
 	return false
 }
 func (rolloutbgEngine) Coq(inAny any, obsAny any) string {
+	if in := inAny.(RInput); in.StaleCanary {
+		in.Status.Sub = nil // what the blue-green manager sees
+		inAny = in
+	}
 	s := rolloutsmEngine{}.Coq(inAny, obsAny)
 	return strings.Replace(s, "Build_ro_case", "Build_ro_case", 1)
 }
